@@ -41,7 +41,7 @@ ASSUMPTIONS = [
     "the bus answers with data = bytes of the request XOR 0x5a, so every "
     "position is recognisable",
 ]
-EXAMPLES = {"quick": 120, "thorough": 3000}
+EXAMPLES = {"quick": 120, "thorough": 10000}
 MIN_NONTRIVIAL = {"quick": 150, "thorough": 3000}
 
 MAXDATA = 1500 - 16 - 12
